@@ -147,18 +147,32 @@ pub struct Tag { pub name: String, pub target: usize, pub annotated: bool }
 pub enum Head { Branch(String), Detached(usize) }
 
 #[derive(Clone, Copy, Debug, PartialEq, Eq, Hash)]
-pub enum WorkTree { Clean, ModifiedTracked, StagedNew, Untracked, IgnoredOnly, ModifiedAndIgnored, DeletedTracked, StagedModification, UntrackedInSubdir, EmptyUntrackedDir, IgnoredDir, StagedDeletion, StagedRename, ModeChange, StagedThenReverted, StagedModWorktreeAsHead, StagedNewThenDeleted, GitlinkMoved, GitlinkMovedStaged, FileNamedLikeTag, FileNamedHead, TouchedTracked, SubmoduleCheckedOutClean, SubmoduleUntrackedInside, SubmoduleModifiedInside }
+pub enum WorkTree { Clean, ModifiedTracked, StagedNew, Untracked, IgnoredOnly, ModifiedAndIgnored, DeletedTracked, StagedModification, UntrackedInSubdir, EmptyUntrackedDir, IgnoredDir, StagedDeletion, StagedRename, ModeChange, StagedThenReverted, StagedModWorktreeAsHead, StagedNewThenDeleted, GitlinkMoved, GitlinkMovedStaged, FileNamedLikeTag, FileNamedHead, TouchedTracked, SubmoduleCheckedOutClean, SubmoduleUntrackedInside, SubmoduleModifiedInside, UserIgnoredUntracked, InfoExcludedUntracked }
 
 impl WorkTree {
-    pub fn dirty(self) -> bool { !matches!(self, WorkTree::Clean | WorkTree::IgnoredOnly | WorkTree::EmptyUntrackedDir | WorkTree::IgnoredDir | WorkTree::StagedThenReverted | WorkTree::TouchedTracked | WorkTree::SubmoduleCheckedOutClean) }
-    pub const ALL: [WorkTree; 25] = [WorkTree::Clean, WorkTree::ModifiedTracked, WorkTree::StagedNew, WorkTree::Untracked, WorkTree::IgnoredOnly, WorkTree::ModifiedAndIgnored, WorkTree::DeletedTracked, WorkTree::StagedModification, WorkTree::UntrackedInSubdir, WorkTree::EmptyUntrackedDir, WorkTree::IgnoredDir, WorkTree::StagedDeletion, WorkTree::StagedRename, WorkTree::ModeChange, WorkTree::StagedThenReverted, WorkTree::StagedModWorktreeAsHead, WorkTree::StagedNewThenDeleted, WorkTree::GitlinkMoved, WorkTree::GitlinkMovedStaged, WorkTree::FileNamedLikeTag, WorkTree::FileNamedHead, WorkTree::TouchedTracked, WorkTree::SubmoduleCheckedOutClean, WorkTree::SubmoduleUntrackedInside, WorkTree::SubmoduleModifiedInside];
+    pub fn dirty(self) -> bool { !matches!(self, WorkTree::Clean | WorkTree::IgnoredOnly | WorkTree::EmptyUntrackedDir | WorkTree::IgnoredDir | WorkTree::StagedThenReverted | WorkTree::TouchedTracked | WorkTree::UserIgnoredUntracked | WorkTree::InfoExcludedUntracked | WorkTree::SubmoduleCheckedOutClean) }
+    pub const ALL: [WorkTree; 27] = [WorkTree::Clean, WorkTree::ModifiedTracked, WorkTree::StagedNew, WorkTree::Untracked, WorkTree::IgnoredOnly, WorkTree::ModifiedAndIgnored, WorkTree::DeletedTracked, WorkTree::StagedModification, WorkTree::UntrackedInSubdir, WorkTree::EmptyUntrackedDir, WorkTree::IgnoredDir, WorkTree::StagedDeletion, WorkTree::StagedRename, WorkTree::ModeChange, WorkTree::StagedThenReverted, WorkTree::StagedModWorktreeAsHead, WorkTree::StagedNewThenDeleted, WorkTree::GitlinkMoved, WorkTree::GitlinkMovedStaged, WorkTree::FileNamedLikeTag, WorkTree::FileNamedHead, WorkTree::TouchedTracked, WorkTree::SubmoduleCheckedOutClean, WorkTree::SubmoduleUntrackedInside, WorkTree::SubmoduleModifiedInside, WorkTree::UserIgnoredUntracked, WorkTree::InfoExcludedUntracked];
 }
 
 /// the commit every repository's gitlink `lib` records: an empty-tree root commit by v <v@v> at 1500000000 +0000, message "inner"
 pub const NESTED_COMMIT: &str = "780dd3ca1074701ebb3912bf6fa3dfca1eaf79d7";
 
+/// Environment of every git process of the harness and (where an engine exports it) of zerv's own git children: as
+/// `proc::base_env_unpinned`, except that the user-level configuration is a real file that names a user-level ignore file
+/// (`*.userignored`), as editors' swap-file and IDE-directory patterns usually are. What git calls ignored there is ignored.
 pub fn git_env() -> Vec<(String, String)> {
-    proc::base_env_unpinned()
+    use std::sync::OnceLock;
+    static CONFIG: OnceLock<String> = OnceLock::new();
+    let cfg = CONFIG.get_or_init(|| {
+        let dir = format!("{}/build", crate::verif_root());
+        let _ = std::fs::create_dir_all(&dir);
+        let (cfg, ign) = (format!("{dir}/harness.gitconfig"), format!("{dir}/harness.gitignore"));
+        let want_cfg = format!("[core]\n\texcludesFile = {ign}\n");
+        if std::fs::read_to_string(&ign).ok().as_deref() != Some("*.userignored\n") { std::fs::write(&ign, "*.userignored\n").unwrap_or_else(|e| machinery_error(&format!("{ign}: {e}"))); }
+        if std::fs::read_to_string(&cfg).ok().as_deref() != Some(&want_cfg) { std::fs::write(&cfg, &want_cfg).unwrap_or_else(|e| machinery_error(&format!("{cfg}: {e}"))); }
+        cfg
+    });
+    proc::base_env_unpinned().into_iter().map(|(k, v)| if k == "GIT_CONFIG_GLOBAL" { (k, cfg.clone()) } else { (k, v) }).collect()
 }
 
 pub fn git(dir: &Path, args: &[&str], stdin: Option<&[u8]>) -> String {
@@ -203,6 +217,7 @@ impl Repo {
         let _ = std::fs::remove_dir_all(&dir);
         std::fs::create_dir_all(&dir).unwrap_or_else(|e| machinery_error(&format!("mkdir {dir:?}: {e}")));
         git(&dir, &["init", "-q", "-b", "zzinit"], None);
+        std::fs::write(dir.join(".git/info/exclude"), "*.locallyignored\n").unwrap_or_else(|e| machinery_error(&format!("info/exclude: {e}")));
         let mut s = String::new();
         for (i, ps) in shape.parents.iter().enumerate() {
             let msg = format!("c{i}");
@@ -213,7 +228,8 @@ impl Repo {
             for p in ps.iter().skip(1) { s += &format!("merge :{}\n", p + 1); }
             // every third commit is empty (tree identical to its first parent, as `git commit --allow-empty`, "ci: trigger"
             // commits or `merge -s ours` produce): it still counts for the distance
-            if i % 3 != 2 { s += &format!("M 100644 inline f{i}\ndata {}\n{}\n", msg.len(), msg); }
+            // (long histories re-use 64 file names, so that the work tree stays small)
+            if i % 3 != 2 { s += &format!("M 100644 inline f{}\ndata {}\n{}\n", i % 64, msg.len(), msg); }
             // the root commit also records a gitlink (a submodule pointer) `lib` to NESTED_COMMIT (see nested_repo); the directory stays an uninitialised, empty
             // submodule unless a work-tree state puts a nested repository there
             if i == 0 { s += "M 100644 inline .gitignore\ndata 8\nignored*\nM 160000 780dd3ca1074701ebb3912bf6fa3dfca1eaf79d7 lib\n"; }
@@ -237,11 +253,12 @@ impl Repo {
     pub fn conform_dag(&self, shape: &Shape) {
         let log = git(&self.dir, &["log", "--all", "--format=%H %ct %P"], None);
         let mut seen = 0;
+        let index: HashMap<&str, usize> = self.shas.iter().enumerate().map(|(i, s)| (s.as_str(), i)).collect();
         for line in log.lines() {
             let mut it = line.split(' ');
             let (h, ct) = (it.next().unwrap_or(""), it.next().unwrap_or(""));
             let ps: Vec<&str> = it.filter(|x| !x.is_empty()).collect();
-            let Some(i) = self.shas.iter().position(|s| s == h) else { machinery_error(&format!("conformance: unknown commit {h} in git")) };
+            let Some(&i) = index.get(h) else { machinery_error(&format!("conformance: unknown commit {h} in git")) };
             let want: Vec<&str> = shape.parents[i].iter().map(|p| self.shas[*p].as_str()).collect();
             if ps != want || ct != self.dates[i].to_string() { machinery_error(&format!("conformance: commit {i} parents/date differ: git {ps:?} {ct}, model {want:?} {}", self.dates[i])); }
             seen += 1;
@@ -316,6 +333,9 @@ impl Repo {
             WorkTree::StagedDeletion => { git(&self.dir, &["rm", "-q", tracked_file], None); }
             WorkTree::StagedRename => { git(&self.dir, &["mv", tracked_file, "renamed"], None); }
             WorkTree::ModeChange => { use std::os::unix::fs::PermissionsExt; std::fs::set_permissions(p(tracked_file), std::fs::Permissions::from_mode(0o755)).unwrap(); }
+            // untracked files that only the user-level ignore file (core.excludesFile) or $GIT_DIR/info/exclude covers
+            WorkTree::UserIgnoredUntracked => { std::fs::write(p(".f0.swp.userignored"), "x").unwrap(); std::fs::create_dir_all(p("ide.userignored")).unwrap(); std::fs::write(p("ide.userignored/workspace.xml"), "x").unwrap(); }
+            WorkTree::InfoExcludedUntracked => { std::fs::write(p("notes.locallyignored"), "x").unwrap(); }
             WorkTree::TouchedTracked => {} // done after the conformance check below (which would refresh the index)
             // untracked files whose names are also revisions: `git <cmd> v1.0.0` / `git <cmd> HEAD` become ambiguous without `--`
             WorkTree::FileNamedLikeTag => { for n in ["v1.0.0", "v1.2.3", "1.5.0rc1", "v2.0.0"] { std::fs::write(p(n), "x").unwrap(); } }
